@@ -108,17 +108,35 @@ def run(w):
         o = a - addr
         return mem[o] if 0 <= o < len(mem) else 0
 
-    try:
-        emu = Emulator(Memory(rd, lambda a, v: None), reset_on_init=False)
-        ins = emu.decode_instruction(addr)
-        nm = ins.name().replace(" ", "_")
-        if nm.startswith("UNK_"):
-            out.append(f"emu=FB:{int(nm[4:], 16)}")
-        else:
-            out.append(f"emu=F:{ins.length()}:{nm}")
-    except Exception as e:  # noqa: BLE001
-        out.append("emu=C:" + type(e).__name__)
+    def fetch(emu):
+        try:
+            ins = emu.decode_instruction(addr)
+            nm = ins.name().replace(" ", "_")
+            if nm.startswith("UNK_"):
+                return f"FB:{int(nm[4:], 16)}"
+            return f"F:{ins.length()}:{nm}"
+        except Exception as e:  # noqa: BLE001
+            return "C:" + type(e).__name__
+
+    fresh = fetch(Emulator(Memory(rd, lambda a, v: None), reset_on_init=False))
+    out.append("emu=" + fresh)
+    # the same fetch on ONE emulator that lives as long as this harness process and has decoded every earlier case
+    # (same addresses, other bytes): anything an Emulator remembers between decodes shows up as a difference
+    _SHARED["mem"], _SHARED["addr"] = mem, addr
+    if _SHARED["emu"] is None:
+        _SHARED["emu"] = Emulator(Memory(_shared_rd, lambda a, v: None), reset_on_init=False)
+    old = fetch(_SHARED["emu"])
+    out.append("emuh=" + ("same" if old == fresh else old))
     return " ".join(out)
+
+
+_SHARED = {"emu": None, "mem": b"", "addr": 0}
+
+
+def _shared_rd(a):
+    o = a - _SHARED["addr"]
+    m = _SHARED["mem"]
+    return m[o] if 0 <= o < len(m) else 0
 
 
 def _il_repr(ins, addr):
